@@ -601,8 +601,11 @@ def _streams_float(ctx, impls, cases):
                     mwant.append(("wrapper-model", tag, _thunk(cyclecount.rainflow, x, **kw)))
 
     # (a) the integer/dyadic cases of the list-model streams (a sample of the exhaustive ones)
+    ex_every, rnd_every = ctx.pick((11, 1), (67, 7))   # about 8 000 + 6 000 (quick) / 7 000 + 8 500 (thorough) vectors
     for i, (seq, scale, style) in enumerate(cases):
-        if style == "exhaustive" and i % 11:
+        if style == "exhaustive" and i % ex_every:
+            continue
+        if style not in ("exhaustive", "corpus", "malformed") and i % rnd_every:
             continue
         if len(seq) > 400 and i % 4:
             continue
@@ -610,7 +613,7 @@ def _streams_float(ctx, impls, cases):
         vec_streams(x, {"seq": list(seq), "scale": scale}, full=(i % 5 == 0))
         ctx.count("float:dyadic")
     # (b) arbitrary doubles
-    for k, x in enumerate(_gen_doubles(ctx, ctx.pick(700, 6000))):
+    for k, x in enumerate(_gen_doubles(ctx, ctx.pick(700, 3000))):
         vec_streams(x, {"bits": _bits(x)}, full=(k % 3 == 0))
         with np.errstate(all="ignore"):
             d = np.diff(x)
@@ -1000,8 +1003,9 @@ def search(ctx, hints):
         for seq in itertools.product(range(4), repeat=L):
             cases.append((seq, 1))
     cases += [(s, sc) for s, sc, _ in _gen_random(ctx, ctx.pick(1500, 15000))]
-    # the entry-point oracle (containers, wrapper packaging, sessions) on the hints, the corpus and every 9th case
-    cases = [(c[0], c[1], i < nfirst or i % 9 == 0) for i, c in enumerate(cases)]
+    # the entry-point oracle (containers, wrapper packaging, sessions) on the hints, the corpus and every 9th (thorough: 40th) case
+    every = ctx.pick(9, 40)
+    cases = [(c[0], c[1], i < nfirst or i % every == 0) for i, c in enumerate(cases)]
     def one(case):
         sub = type(ctx).__new__(type(ctx))
         sub.failures = []
